@@ -148,7 +148,7 @@ def run_check(pid, tier, seed, replay=None):
                           {"broken": "make -C coq", "log": log[-3000:]}, found_input=False)
         else:
             ctx.obl = coqeval.obligations(pid)
-            bad = coqeval.audit()
+            bad = coqeval.audit(only=coqeval.dep_closure(f"props/{pid}.v"))
             ctx.obl["audit_clean"] = not bad
             if bad:
                 ctx.obl["ok"] = False
